@@ -1,6 +1,9 @@
-"""C06 -- semantic actions (proof part from the contracts tagged C06; bounded histories on reused parsers)."""
+"""C06 -- semantic actions: proof part from the contracts tagged C06 (action lookup, semantics_call, exception flow through rule_call /
+expcall / Call._parse, the memo table never replays a raw FailedSemantics); bounded: the semantics matrix against the documented
+semantics (bC06) and histories on reused parsers."""
 
 
 def bounded(tier, seed, info):
+    from bounded.bC06 import run
     from bounded.bHist import run_parser_histories
-    return run_parser_histories('C06', tier, seed)
+    return run(tier, seed, info) + run_parser_histories('C06', tier, seed)
